@@ -268,42 +268,56 @@ def canary(env):
     env.eq('rhs without weight', b.reshape(-1), -r)
 
 
-@obligation('C07.corrector_before_weight', functions=[f'{OPT}:GaussNewton.step', f'{OPT}:LevenbergMarquardt.step'], max_paths=16)
-def corrector_order(env):
-    """R and J are first passed through the configured corrector (per residual), then weighted"""
+def corrector_order(env, configs=None):
+    """R and J are first passed through the configured corrector (per residual; a single corrector serves every residual), then weighted"""
     T = env.T
     for cls_name in ('GaussNewton', 'LevenbergMarquardt'):
-        S_ = Setup(env, [(1, 2), (3, 1)], [('p', 'euclid')])
-        seen = []
-        class Corr(T.nn.Module):
-            def __init__(self, k): super().__init__(); self.k = k
-            def forward(self, R, J):
-                seen.append((self.k, R.shape, J.shape))
-                return R * (self.k + 1), J * (self.k + 2)
-        cls = getattr(S_.optm, cls_name)
-        kw = dict(solver=S_.solver, corrector=[Corr(1), Corr(4)])
-        if cls_name == 'LevenbergMarquardt':
-            class Strategy:
-                defaults = {'damping': Q(1, 100) if env.sym else 0.01}
-                def update(self, pg, *a, **k): pass
-            kw.update(strategy=Strategy(), reject=0)
-        opt = cls(S_.model, **kw)
-        S_.install(opt)
-        object.__setattr__(opt.model, 'loss', lambda *a, **k: T.tensor(0) if env.sym else T.zeros(()))
-        W = [sym_tensor(env, f'Wa{cls_name}', (2, 2)), sym_tensor(env, f'Wb{cls_name}', (1,))]
-        opt.step(None, weight=W)
-        A, b = S_.calls[0]
-        env.holds(f'{cls_name}: corrector k is applied to residual k only, once', [s[0] for s in seen] == [1, 4])
-        rows = []; rs = []
-        for i, (x, k) in enumerate(zip(S_.R, (1, 4))):
-            m = x.numel()
-            rows.append(T.cat([blk.reshape(m, -1) for blk in S_.J[i]], 1) * (k + 2)); rs.append(x.reshape(-1) * (k + 1))
-        Jc, rc = T.cat(rows, 0), T.cat(rs, 0)
-        Wm = S_.weight_matrix(W)
-        if cls_name == 'GaussNewton':
-            env.eq('GN: solver sees W Jc and -W Rc of the corrected residuals', T.cat([A, b], -1), T.cat([Wm @ Jc, -(Wm @ rc).unsqueeze(-1)], -1))
-        else:
-            env.eq('LM: rhs is -Jc^T W Rc of the corrected residuals', b.reshape(-1), -(Jc.transpose(-1, -2) @ Wm @ rc))
+        for single in (False, True):
+            if configs is not None and (cls_name, single) not in configs: continue
+            S_ = Setup(env, [(1, 2), (3, 1)], [('p', 'euclid')])
+            seen = []
+            class Corr(T.nn.Module):
+                def __init__(self, k): super().__init__(); self.k = k
+                def forward(self, R, J):
+                    seen.append((self.k, R.shape, J.shape))
+                    return R * (self.k + 1), J * (self.k + 2)
+            cls = getattr(S_.optm, cls_name)
+            ks = (2, 2) if single else (1, 4)
+            kw = dict(solver=S_.solver, corrector=Corr(2) if single else [Corr(1), Corr(4)])
+            if cls_name == 'LevenbergMarquardt':
+                class Strategy:
+                    defaults = {'damping': Q(1, 100) if env.sym else 0.01}
+                    def update(self, pg, *a, **k): pass
+                kw.update(strategy=Strategy(), reject=0)
+            opt = cls(S_.model, **kw)
+            S_.install(opt)
+            object.__setattr__(opt.model, 'loss', lambda *a, **k: T.tensor(0) if env.sym else T.zeros(()))
+            tag = f'{cls_name}{"/one corrector for every residual" if single else ""}'
+            W = [sym_tensor(env, f'Wa{cls_name}{int(single)}', (2, 2)), sym_tensor(env, f'Wb{cls_name}{int(single)}', (1,))]
+            opt.step(None, weight=W)
+            A, b = S_.calls[0]
+            env.holds(f'{tag}: corrector k is applied to residual k only, once' if not single else f'{tag}: applied to each residual once', [s[0] for s in seen] == list(ks))
+            rows = []; rs = []
+            for i, (x, k) in enumerate(zip(S_.R, ks)):
+                m = x.numel()
+                rows.append(T.cat([blk.reshape(m, -1) for blk in S_.J[i]], 1) * (k + 2)); rs.append(x.reshape(-1) * (k + 1))
+            Jc, rc = T.cat(rows, 0), T.cat(rs, 0)
+            Wm = S_.weight_matrix(W)
+            if cls_name == 'GaussNewton':
+                env.eq(f'{tag}: solver sees W Jc and -W Rc of the corrected residuals' if single else 'GN: solver sees W Jc and -W Rc of the corrected residuals',
+                       T.cat([A, b], -1), T.cat([Wm @ Jc, -(Wm @ rc).unsqueeze(-1)], -1))
+            else:
+                env.eq(f'{tag}: rhs is -Jc^T W Rc of the corrected residuals' if single else 'LM: rhs is -Jc^T W Rc of the corrected residuals',
+                       b.reshape(-1), -(Jc.transpose(-1, -2) @ Wm @ rc))
+CORRECTOR_CONTRACTS = {}
+for _cls in ('GaussNewton', 'LevenbergMarquardt'):
+    for _single in (False, True):
+        def _mk(c=_cls, s_=_single):
+            def f(env): return corrector_order(env, configs=[(c, s_)])
+            f.__doc__ = corrector_order.__doc__
+            return f
+        CORRECTOR_CONTRACTS[(_cls, _single)] = _mk()
+        obligation(f'C07.corrector_before_weight.{_cls}' + ('.single' if _single else ''), functions=[f'{OPT}:{_cls}.step'], max_paths=16)(CORRECTOR_CONTRACTS[(_cls, _single)])
 
 
 # the clamp of diag(J^T W J) reads min / max from the parameter group, which LevenbergMarquardt.__init__ merges with the strategy's
@@ -359,3 +373,18 @@ from contracts import c10_solvers as _c10
 for _nm, _fn in (('PINV', _c10.pinv_), ('LSTSQ', _c10.lstsq_), ('Cholesky', _c10.chol), ('Cholesky.upper', _c10.chol_upper), ('Cholesky.batch', _c10.chol_batch)):
     obligation(f'C07.callee.solver.{_nm}', functions=[f'pypose.optim.solver:{_nm.split(".")[0]}.forward'], max_paths=32, no_validate=True,
                note='callee contract of the solver handed to GN / LM (same contract function as C10)')(_fn)
+
+
+# "X <- Exp(delta) X for group parameters": update_parameter hands the increment to the parameter's own add_ (C07.GN.step.update checks the
+# hand-over on an SE3 parameter); that add_ IS the left retraction for every group type - also for an increment of the group's storage
+# width - is the retraction contract of c05_tangent.py, discharged in this check too for every group type.
+from contracts import c05_tangent as _c05
+from pvc import registry as _R
+for _g in GROUPS:
+    obligation(f'C07.callee.retraction.{_g}', functions=[f'{LT}:{_g}Type.add_', f'{LT}:LieTensor.add_', f'{LT}:LieType.add_', f'{LT}:LieType.Retr'], max_paths=32,
+               note='callee contract of the parameter update (same contract function as C05.{g}.Retr_add)')(_R.OBLIGATIONS[f'C05.{_g}.Retr_add'].fn)
+
+# the direct solvers in floating point (consistent and least-squares systems up to condition 1e8, both dtypes): the bounded stand-in of
+# c10_solvers.py is run in this check too - "the step is the least-squares solution with the default solver" is a statement about what
+# PINV returns in float arithmetic as well (normal-equation shortcuts square the condition number and pass every exact-arithmetic contract)
+bounded('C07.callee.solver.float', functions=['pypose.optim.solver:PINV.forward', 'pypose.optim.solver:LSTSQ.forward', 'pypose.optim.solver:Cholesky.forward'])(_c10.direct_float)
